@@ -4,6 +4,7 @@ import (
 	"fmt"
 	"go/token"
 	"go/types"
+	"slices"
 	"sort"
 	"strings"
 
@@ -1180,6 +1181,45 @@ type c01Rec struct {
 	check   *ssa.Call // the invoke
 	checked ssa.Value // object handed to the checker
 	owner   ssa.Value
+	vals    []ssa.Value // see values
+	valsOK  bool
+}
+
+// values: what the checked object can be when the check runs. The object may reach the check through
+// a merge — the result of a lookup helper whose body the normaliser merged into the reconcile function
+// travels as `obj, found, err := phi(nil, nil, X, X), phi(false, false, false, true), phi(E1, E2, nil,
+// nil)`, and the check runs behind `err == nil` and `found` — so the merge is narrowed to the incoming
+// edges that the facts at the check leave feasible (pfPossibleValuesUnder: all results of one merge
+// point select the same edge). With no merge this is the checked value itself.
+func (r *c01Rec) values(p *Program) []ssa.Value {
+	if !r.valsOK {
+		r.valsOK = true
+		for _, v := range p.pfPossibleValuesUnder(stripConv(r.checked), p.FactsAt(r.check.Block())) {
+			v = stripConv(v)
+			dup := false
+			for _, k := range r.vals {
+				if k == v || (isNilConst(k) && isNilConst(v)) {
+					dup = true
+				}
+			}
+			if !dup {
+				r.vals = append(r.vals, v)
+			}
+		}
+	}
+	return r.vals
+}
+
+// isChecked: x is the checked object — the value handed to the checker, or the one value that the
+// merge handed to the checker can hold when the check runs.
+func (r *c01Rec) isChecked(p *Program, x ssa.Value) bool {
+	if p.sameValue(x, r.checked) {
+		return true
+	}
+	if vs := r.values(p); len(vs) == 1 && !isNilConst(vs[0]) {
+		return p.sameValue(x, vs[0])
+	}
+	return false
 }
 
 func c01RecOf(c Call) *c01Rec {
@@ -1192,11 +1232,11 @@ func c01RecOf(c Call) *c01Rec {
 
 // sameOrCopyOfChecked: x is the checked object or a DeepCopy of it.
 func (r *c01Rec) sameOrCopyOfChecked(p *Program, x ssa.Value) bool {
-	if p.sameValue(x, r.checked) {
+	if r.isChecked(p, x) {
 		return true
 	}
 	if call, idx := asCall(x); call != nil && idx == -1 && calleeName(call.Common()) == "DeepCopy" {
-		return p.sameValue(callRecv(call.Common()), r.checked)
+		return r.isChecked(p, callRecv(call.Common()))
 	}
 	return false
 }
@@ -1251,17 +1291,34 @@ func c01r3(c *Ctx) {
 		c.Visit(fn)
 		// the checked object is the object the reader filled in this activation; owner/previous/protection are passed through
 		o := c.Ob(fn, "checker-inspects-read-object", inv.Instr, "the adoption checker is asked about the object that was read from the cluster in this activation, for the owner of this call")
+		// every value the checked object can hold when the check runs (a merge narrowed by the guards of
+		// the check, see values) must have been filled by a Reader.Get on every path to the check
 		var reads []string
-		for _, cc := range callsIn(fn) {
-			if isReaderGet(cc.Common) && p.sameValue(callArgs(cc.Common)[2], r.checked) &&
-				p.mustPrecede(r.check, func(in ssa.Instruction) bool { return in == cc.Instr }) {
-				reads = append(reads, p.IPos(cc.Instr))
+		var unread ssa.Value
+		vals := r.values(p)
+		for _, v := range vals {
+			n := 0
+			for _, cc := range callsIn(fn) {
+				if isReaderGet(cc.Common) && p.sameValue(callArgs(cc.Common)[2], v) &&
+					p.mustPrecede(r.check, func(in ssa.Instruction) bool { return in == cc.Instr }) {
+					n++
+					if pos := p.IPos(cc.Instr); !slices.Contains(reads, pos) {
+						reads = append(reads, pos)
+					}
+				}
+			}
+			if n == 0 && unread == nil {
+				unread = v
 			}
 		}
 		_, ownerIsParam := stripConv(r.owner).(*ssa.Parameter)
 		switch {
-		case len(reads) == 0:
-			o.Fail("the object handed to the adoption checker (%s) is not the out-parameter of a Reader.Get that precedes the check", p.describe(r.checked))
+		case len(vals) == 0 || unread != nil:
+			what := p.describe(r.checked)
+			if unread != nil && unread != stripConv(r.checked) {
+				what += ", which may be " + p.describe(unread)
+			}
+			o.Fail("the object handed to the adoption checker (%s) is not the out-parameter of a Reader.Get that precedes the check", what)
 		case !ownerIsParam:
 			o.Fail("the owner handed to the adoption checker (%s) is not the owner parameter of the reconcile function", p.describe(r.owner))
 		default:
